@@ -352,7 +352,7 @@ Definition result_value (k : ckind) (m : cose) : cbor := CBstr (encode (cose_ite
 
 Definition rcp_of (v : cbor) : option recipient :=
   match v with
-  | CArr [CBstr p; CMap u; CBstr w] => Some (mkRcp p u w)
+  | CArr (CBstr p :: CMap u :: CBstr w :: _) => Some (mkRcp p u w)   (* further items are ignored *)
   | _ => None
   end.
 
@@ -831,6 +831,17 @@ Definition direct_aad (wire : bytes) (sec : cblock) (source : cbor) (s : scope) 
 Record opview := mkOV {
   ov_input : bytes; ov_tag : bytes; ov_keyinfo : bytes; ov_data : bytes }.
 
+(** the (detached) payload slot of the message as received: not authenticated,
+    but pycose may reject what it finds there *)
+Definition cose_slot (v : cbor) : cbor :=
+  match v with
+  | CBstr bs => match decode_all cose_fuel bs with
+                | Some (CArr (_ :: _ :: x :: _)) => x
+                | _ => CSimple 22
+                end
+  | _ => CSimple 22
+  end.
+
 Definition has_x5 (u : list (cbor * cbor)) : bool :=
   match lookup_hdr u 33, lookup_hdr u 34 with
   | None, None => false
@@ -851,7 +862,7 @@ Definition opview_of (b : bundle) (sec : cblock) (a : asb) (sp : secparams) (t :
       match cose_of_result code v with
       | Some (kind, m) =>
           let o := mkOp kind (c_protected m) b sec (a_source a) (sp_scope sp) (sp_addl sp) tgt in
-          let ki := encode (CArr [CMap (c_unprot m); CArr (map rcp_item (c_recips m));
+          let ki := encode (CArr [CMap (c_unprot m); CArr (map rcp_item (c_recips m)); cose_slot v;
                                   match sp_addl_unprot sp with Some x => CBstr x | None => CSimple 22 end;
                                   (* key resolution by certificate (x5chain 33 / x5t 34 present)
                                      compares the security source as received (not normalised)
@@ -954,6 +965,8 @@ Definition is_sec (c : cblock) : bool := (cb_type c =? 11) || (cb_type c =? 12).
       3 = the altered bundle carries no security block of type 11 / 12 any
           more (nothing is verified);
       4 = the altered bundle does not parse;
+      7 = the number of security blocks changed (a block was removed, added
+          or re-typed): not judged;
       5 = the Abstract Security Block of a security block does not decode;
       6 = trailing operations of a security block were removed (its target
           list was cut short), the remaining ones are unchanged: nothing
@@ -964,6 +977,7 @@ Definition verdict (orig alt : bytes) : N :=
       match filter is_sec (b_blocks ba) with
       | [] => 3
       | secs =>
+          if negb (length secs =? length (filter is_sec (b_blocks bo)))%nat then 7 else
           if existsb (fun c => match asb_dec (cb_btsd c) with None => true | Some _ => false end) secs then 5
           else
             match bundle_views bo, bundle_views ba with
